@@ -318,6 +318,7 @@ impl Memfs {
             let m1 = sys::mode(x, m.dirs, &m.sym)?;
             if (!x.is_symlink() || m.follow)
                 && x.is_dir()
+                && m1 != 0
                 && !sys::revoking_mode(x.mode(), m1)
                 && x.mode() != m1
             {
